@@ -6,7 +6,7 @@
 From Coq Require Import Lia DecimalString DecimalZ DecimalPos DecimalFacts.
 From FA.Base Require Import Names.
 From FA.Model Require Import GTree Hash.
-From FA.Proofs Require Import HashLex.
+From FA.Proofs Require Import HashLex HashUtf8.
 Local Open Scope N_scope.
 
 (* ---------- code points of Coq strings ---------- *)
@@ -575,20 +575,32 @@ Section Tree.
   Theorem hash_complete a b : erase a = erase b -> hash printable md5 a = hash printable md5 b.
   Proof. intros H. rewrite !hash_erase, H. reflexivity. Qed.
 
-  Lemma hash_input_some t u : hash_input t = Some u -> u = t.
+  Lemma hash_input_some t u : hash_input t = Some u -> u = utf8 t.
   Proof. unfold hash_input. destruct (forallb _ t); [intros H; inversion H; reflexivity | discriminate]. Qed.
 
-  (* equal hash => equal structure, relative to md5 being injective on the two dumps *)
+  (* equal hash => equal structure, relative to md5 not colliding on the two encoded dumps *)
   Theorem hash_sound_if a b h :
     wf (erase a) = true -> wf (erase b) = true ->
-    (md5 (dump_raw printable a) = md5 (dump_raw printable b) -> dump_raw printable a = dump_raw printable b) ->
+    (md5 (utf8 (dump_raw printable a)) = md5 (utf8 (dump_raw printable b)) ->
+     utf8 (dump_raw printable a) = utf8 (dump_raw printable b)) ->
     hash printable md5 a = Some h -> hash printable md5 b = Some h -> erase a = erase b.
   Proof.
     intros Wa Wb Hmd5 Ha Hb. unfold hash in Ha, Hb.
     destruct (hash_input (dump_raw printable a)) as [ta|] eqn:Ea; [|discriminate Ha].
     destruct (hash_input (dump_raw printable b)) as [tb|] eqn:Eb; [|discriminate Hb].
     apply hash_input_some in Ea, Eb. subst ta tb. cbn [option_map] in Ha, Hb.
-    apply (dump_raw_iff a b Wa Wb). apply Hmd5. congruence.
+    apply (dump_raw_iff a b Wa Wb). apply utf8_inj. apply Hmd5. congruence.
+  Qed.
+
+  (* the hash is defined exactly when the dump text can be encoded *)
+  Theorem hash_defined_iff a :
+    (exists h, hash printable md5 a = Some h) <-> forallb encodable (dump_raw printable a) = true.
+  Proof.
+    unfold hash, hash_input. destruct (forallb encodable (dump_raw printable a)); cbn [option_map]; split.
+    - reflexivity.
+    - intros _. eexists. reflexivity.
+    - intros [h H]. discriminate H.
+    - discriminate.
   Qed.
 
   (* non-field attributes (executor, metadata, dataset object, positions) are invisible *)
@@ -701,9 +713,9 @@ Section Edits.
   Lemma edit_changes_hash_if a b h :
     wf a = true -> wf b = true -> a <> b ->
     ghash printable md5 a = Some h -> ghash printable md5 b = Some h ->
-    dump a <> dump b /\ md5 (dump a) = md5 (dump b).
+    utf8 (dump a) <> utf8 (dump b) /\ md5 (utf8 (dump a)) = md5 (utf8 (dump b)).
   Proof.
-    intros Wa Wb Hne Ha Hb. split; [apply edit_changes_dump; assumption|].
+    intros Wa Wb Hne Ha Hb. split; [intros Hu; apply utf8_inj in Hu; revert Hu; apply edit_changes_dump; assumption|].
     unfold ghash in Ha, Hb.
     destruct (hash_input (dump a)) as [ta|] eqn:Ea; [|discriminate Ha].
     destruct (hash_input (dump b)) as [tb|] eqn:Eb; [|discriminate Hb].
